@@ -369,6 +369,11 @@ class VerifyTask:
 
     # ---- services for the interpreter
     def contract_for(self, key, f):
+        # `contract_overrides` of the contract under verification: callee contracts that replace the registered
+        # ones for this task only (e.g. a callee described over the real fields instead of the protocol model)
+        ov = getattr(self.c, "contract_overrides", None)
+        if ov and key in ov:
+            return ov[key]
         c = REGISTRY.get(key)
         return c
 
